@@ -1,7 +1,7 @@
 (* C16 - Client change events are complete and exact.  Statements only. *)
 From Coq Require Import List NArith Bool String.
 Import ListNotations.
-From Indi Require Import Base.Sx Msg.Equality Driver.Model Client.Model Client.Props Client.Events.
+From Indi Require Import Base.Sx Msg.Equality Driver.Model Client.Model Client.Props Client.Events Client.StateChain.
 
 (* every registered callback is invoked exactly for the events that match its device /
    property / element / event-type filter, in order; log_of i = what callback i saw *)
@@ -40,3 +40,18 @@ Theorem one_message_keeps_the_chains : forall m log mg,
   chain_inv (mirror_of (apply m mg)) (log ++ events_of (apply m mg)) /\ chained (log ++ events_of (apply m mg)).
 Proof. exact apply_preserves_chain. Qed.
 Print Assumptions one_message_keeps_the_chains.
+
+(* The same for property states: for EVERY stream, at the end the mirror holds for every
+   property exactly the state the latest state event about it announced, and every state
+   event continues the chain: a definition starts it (old state absent), an update event's
+   old state is the previous event's new state and differs from its new state. *)
+Theorem state_events_form_unbroken_chains : forall ms,
+  let '(m, log) := run_stream [] [] ms in state_inv m log /\ state_chained log.
+Proof. exact state_chains_hold_for_every_stream. Qed.
+Print Assumptions state_events_form_unbroken_chains.
+
+Theorem one_message_keeps_the_state_chains : forall m log mg,
+  wf_mirror m -> state_inv m log -> state_chained log ->
+  state_inv (mirror_of (apply m mg)) (log ++ events_of (apply m mg)) /\ state_chained (log ++ events_of (apply m mg)).
+Proof. exact apply_preserves_state_chain. Qed.
+Print Assumptions one_message_keeps_the_state_chains.
